@@ -425,6 +425,36 @@ def check(ctx):
                         continue
                     else:
                         r6.bad(V(r6.id, f.id, "type-text-origin:%s" % lp[-1]["name"], "%s is not produced by a TypeVisitor entry: %s" % (lp[-1]["name"], f.describe_origin(o)), f.file, st.get("line")))
+    # ... and only those fields reach the output: no rendered template interpolates a field that carries *Rust* type text
+    # (rust_type, return_type, message_type, payload_type), wherever the hole is (a wrong-field slip such as channel.messageType)
+    from c01 import Producers, TYPETEXT, split_hole
+    from tpltypes import Typing
+    from tplpaths import Templates, consistent
+    T_ = Templates(S)
+    typing_ = Typing(S, P, T_)
+    prod_ = Producers(S, None)
+    n_h = 0
+    for tn in sorted(T_.rendered_names()):
+        seen_h = set()
+        for p_ in T_.paths(tn) or []:
+            if not consistent(p_.conds):
+                continue
+            for it in p_.holes():
+                h = it[1]
+                if h in seen_h:
+                    continue
+                seen_h.add(h)
+                base, filters, _ = split_hole(h)
+                m_ = re.match(r"^\(([^()]*)\)(.*)$", base)
+                if m_:
+                    base = m_.group(1) + m_.group(2)
+                fo = typing_.field_of(base)
+                if not fo or fo[0] == "ambiguous":
+                    continue
+                n_h += 1
+                if prod_.field(*fo) == TYPETEXT:
+                    r6.bad(V(r6.id, tn, "rust-type-text-in-template:%s" % h, "`{{ %s }}` interpolates %s.%s, which holds Rust type text, not a translated TypeScript type" % (h, fo[0], fo[1])))
+    r6.ok("%d typed template holes, none bound to a Rust-type-text field" % n_h)
     # sibling type_to_string renderers
     sib = {}
     for owner in ("CommandParser", "StructParser", "ChannelParser"):
